@@ -26,7 +26,7 @@ RULE = (
 )
 ASSUMPTIONS = [
     "float64 paths: 1e-10; integer shift = roll: 5e-5*(1+|s|) relative to max|x| (ramp built from float32-rounded frequencies, measured 1.8e-7*(1+|s|)); complex64: 1e-4*(1+|s|)",
-    "float32 paths: 1e-4 relative (measured <= 4e-7); propagator additivity 5e-5*(1+max phase) (float32 phase rounding grows with the phase, measured 1.9e-7*(1+phase))",
+    "float32 paths: 1e-4 relative (measured <= 4.6e-7); pure-phase intensity conservation through the whole chain 2e-4 (measured 8.4e-7); propagator additivity 5e-5*(1+max phase) (float32 phase rounding grows with the phase, measured 1.9e-7*(1+phase))",
     "energy of a sub-pixel translation is judged on complex arrays (for real input the library returns the real part, which is not unitary at the Nyquist frequency)",
     "projection inputs have a predicted far field >= 0.5 (the mixed-state code adds eps=1e-9 and maps exact zeros of the prediction to zero); measured amplitudes contain exact zeros; in situ the mixed-state projection is judged where the predicted amplitude is >= 1e-3",
     "the amplitudes produced by the projection are read in the detector layout, i.e. through DetectorPixelated.forward (zero frequency at n//2), the layout of the measured data",
@@ -43,12 +43,13 @@ REQUIRED_COUNTERS = [
 T64 = 1e-10
 T32 = 1e-4
 ROLL_TOL = 5e-5  # x (1+|s|): the ramp is built from float32-rounded frequencies (measured 1.8e-7 x (1+|s|))
+CONS_TOL = 2e-4  # per-pattern sum I / sum|probe|^2 - 1 through up to 4 slices and 4 modes in complex64 (measured 8.4e-7)
 PHASE_TOL = 5e-5  # x (1+max phase): float32 rounding of the propagator phase (measured 1.9e-7 x (1+phase))
 
 
 def plan(tier, seed):
     q = tier == "quick"
-    n = {"insitu": 112 if q else 1120, "chain": 280 if q else 2800, "projection": 840 if q else 8400, "translate": 2100 if q else 21000,
+    n = {"insitu": 196 if q else 1120, "chain": 420 if q else 2800, "projection": 840 if q else 8400, "translate": 2100 if q else 21000,
          "propagate": 1400 if q else 14000, "adjoint": 1400 if q else 14000, "detector": 420 if q else 4200}
     rest = []
     for kind in ("projection", "translate", "propagate", "adjoint", "detector", "chain"):
@@ -140,7 +141,7 @@ def setup(ctx):
             pt_total = L.get("probe_total")
             if L.get("conserving") and pt_total is not None and pt_total == pt_total and pt_total > 0:
                 L["n_conservation"] = L.get("n_conservation", 0) + 1
-                ctx.close(float((tot / pt_total - 1).abs().max()), T32, "pure_phase_intensity_not_conserved",
+                ctx.close(float((tot / pt_total - 1).abs().max()), CONS_TOL, "pure_phase_intensity_not_conserved",
                           lambda: "in situ (%s object, %d slices, %d modes): per-pattern sum I / sum |probe|^2 - 1, probe total %.6g" % (L["obj_type"], L["slices"], exit_waves.shape[0], pt_total),
                           track="insitu", operator="chain", obj_type=L["obj_type"], **f)
 
@@ -599,7 +600,7 @@ def _run_chain(spec, idx, ctx):
         probe = pt.probe_model.probe
         tot = float((probe.abs().double() ** 2).sum())
         # the object handed to the forward model is unit modulus (premise, C10's claim) -> conservation must follow
-        ctx.close(float((pred.double().sum((-2, -1)) / tot - 1).abs().max()), T32, "pure_phase_intensity_not_conserved",
+        ctx.close(float((pred.double().sum((-2, -1)) / tot - 1).abs().max()), CONS_TOL, "pure_phase_intensity_not_conserved",
                   lambda: "explicit chain (%s, %d slices, %d modes, roi %s): per-pattern sum I / sum|probe|^2 - 1" % (ot, S, M, roi), track="chain", **f)
         if S > 1:
             Pz = pt.propagators
